@@ -118,6 +118,7 @@ fn scenario(depth: usize, batch: BatchMode, pauses: Vec<u64>, p: u64, bound: usi
         shards: 1,
         nontrivial: adaptive,
         unbounded: false,
+        loop_body: false,
     }
 }
 
